@@ -122,17 +122,20 @@ package promapi
 //@ func FailoverGroup.Query [C15]
 //@   requires fg != nil && len(fg.servers) >= 1
 //@   ghost called bool
+//@   ghost calls int
 //@   ghost lastErr error
 //@   ghost lastRes *QueryResult
 //@   ghost lastURI string
 //@   at call Prometheus.Query assert called ==> lastErr != nil && unavailable(lastErr)
 //@   after call Prometheus.Query set called = true
+//@   after call Prometheus.Query set calls = calls + 1
 //@   after call Prometheus.Query set lastErr = result1
 //@   after call Prometheus.Query set lastRes = result0
 //@   after call Prometheus.Query set lastURI = arg0.safeURI
-//@   loop 1 invariant iter >= 0 && (called <==> iter >= 1)
+//@   loop 1 invariant iter >= 0 && (called <==> iter >= 1) && calls == iter && iter <= old(len(fg.servers))
 //@   loop 1 invariant called ==> lastErr != nil && unavailable(lastErr) && err == lastErr && uri == lastURI
 //@   ensures called
+//@   ensures err != nil && unavailable(lastErr) ==> calls == old(len(fg.servers))
 //@   ensures err == nil ==> lastErr == nil && qr == lastRes
 //@   ensures err != nil ==> lastErr != nil && dyn(err, *FailoverGroupError) &&
 //@              unbox(err, *FailoverGroupError).err == lastErr &&
@@ -143,17 +146,20 @@ package promapi
 //@ func FailoverGroup.RangeQuery [C15]
 //@   requires fg != nil && len(fg.servers) >= 1
 //@   ghost called bool
+//@   ghost calls int
 //@   ghost lastErr error
 //@   ghost lastRes *RangeQueryResult
 //@   ghost lastURI string
 //@   at call Prometheus.RangeQuery assert called ==> lastErr != nil && unavailable(lastErr)
 //@   after call Prometheus.RangeQuery set called = true
+//@   after call Prometheus.RangeQuery set calls = calls + 1
 //@   after call Prometheus.RangeQuery set lastErr = result1
 //@   after call Prometheus.RangeQuery set lastRes = result0
 //@   after call Prometheus.RangeQuery set lastURI = arg0.safeURI
-//@   loop 1 invariant iter >= 0 && (called <==> iter >= 1)
+//@   loop 1 invariant iter >= 0 && (called <==> iter >= 1) && calls == iter && iter <= old(len(fg.servers))
 //@   loop 1 invariant called ==> lastErr != nil && unavailable(lastErr) && err == lastErr && uri == lastURI
 //@   ensures called
+//@   ensures err != nil && unavailable(lastErr) ==> calls == old(len(fg.servers))
 //@   ensures err == nil ==> lastErr == nil && rqr == lastRes
 //@   ensures err != nil ==> lastErr != nil && dyn(err, *FailoverGroupError) &&
 //@              unbox(err, *FailoverGroupError).err == lastErr &&
@@ -164,17 +170,20 @@ package promapi
 //@ func FailoverGroup.Config [C15]
 //@   requires fg != nil && len(fg.servers) >= 1
 //@   ghost called bool
+//@   ghost calls int
 //@   ghost lastErr error
 //@   ghost lastRes *ConfigResult
 //@   ghost lastURI string
 //@   at call Prometheus.Config assert called ==> lastErr != nil && (unavailable(lastErr) || unsupported(lastErr))
 //@   after call Prometheus.Config set called = true
+//@   after call Prometheus.Config set calls = calls + 1
 //@   after call Prometheus.Config set lastErr = result1
 //@   after call Prometheus.Config set lastRes = result0
 //@   after call Prometheus.Config set lastURI = arg0.safeURI
-//@   loop 1 invariant iter >= 0 && (called <==> iter >= 1)
+//@   loop 1 invariant iter >= 0 && (called <==> iter >= 1) && calls == iter && iter <= old(len(fg.servers))
 //@   loop 1 invariant called ==> lastErr != nil && (unavailable(lastErr) || unsupported(lastErr)) && err == lastErr && uri == lastURI
 //@   ensures called
+//@   ensures err != nil && (unavailable(lastErr) || unsupported(lastErr)) ==> calls == old(len(fg.servers))
 //@   ensures err == nil ==> lastErr == nil && cfg == lastRes
 //@   ensures err != nil ==> lastErr != nil && dyn(err, *FailoverGroupError) &&
 //@              unbox(err, *FailoverGroupError).err == lastErr &&
@@ -184,17 +193,20 @@ package promapi
 //@ func FailoverGroup.Metadata [C15]
 //@   requires fg != nil && len(fg.servers) >= 1
 //@   ghost called bool
+//@   ghost calls int
 //@   ghost lastErr error
 //@   ghost lastRes *MetadataResult
 //@   ghost lastURI string
 //@   at call Prometheus.Metadata assert called ==> lastErr != nil && (unavailable(lastErr) || unsupported(lastErr))
 //@   after call Prometheus.Metadata set called = true
+//@   after call Prometheus.Metadata set calls = calls + 1
 //@   after call Prometheus.Metadata set lastErr = result1
 //@   after call Prometheus.Metadata set lastRes = result0
 //@   after call Prometheus.Metadata set lastURI = arg0.safeURI
-//@   loop 1 invariant iter >= 0 && (called <==> iter >= 1)
+//@   loop 1 invariant iter >= 0 && (called <==> iter >= 1) && calls == iter && iter <= old(len(fg.servers))
 //@   loop 1 invariant called ==> lastErr != nil && (unavailable(lastErr) || unsupported(lastErr)) && err == lastErr && uri == lastURI
 //@   ensures called
+//@   ensures err != nil && (unavailable(lastErr) || unsupported(lastErr)) ==> calls == old(len(fg.servers))
 //@   ensures err == nil ==> lastErr == nil && metadata == lastRes
 //@   ensures err != nil ==> lastErr != nil && dyn(err, *FailoverGroupError) &&
 //@              unbox(err, *FailoverGroupError).err == lastErr &&
@@ -205,17 +217,20 @@ package promapi
 //@ func FailoverGroup.Flags [C15]
 //@   requires fg != nil && len(fg.servers) >= 1
 //@   ghost called bool
+//@   ghost calls int
 //@   ghost lastErr error
 //@   ghost lastRes *FlagsResult
 //@   ghost lastURI string
 //@   at call Prometheus.Flags assert called ==> lastErr != nil && (unavailable(lastErr) || unsupported(lastErr))
 //@   after call Prometheus.Flags set called = true
+//@   after call Prometheus.Flags set calls = calls + 1
 //@   after call Prometheus.Flags set lastErr = result1
 //@   after call Prometheus.Flags set lastRes = result0
 //@   after call Prometheus.Flags set lastURI = arg0.safeURI
-//@   loop 1 invariant iter >= 0 && (called <==> iter >= 1)
+//@   loop 1 invariant iter >= 0 && (called <==> iter >= 1) && calls == iter && iter <= old(len(fg.servers))
 //@   loop 1 invariant called ==> lastErr != nil && (unavailable(lastErr) || unsupported(lastErr)) && err == lastErr && uri == lastURI
 //@   ensures called
+//@   ensures err != nil && (unavailable(lastErr) || unsupported(lastErr)) ==> calls == old(len(fg.servers))
 //@   ensures err == nil ==> lastErr == nil && flags == lastRes
 //@   ensures err != nil ==> lastErr != nil && dyn(err, *FailoverGroupError) &&
 //@              unbox(err, *FailoverGroupError).err == lastErr &&
